@@ -40,7 +40,7 @@ DOCS = ["index", "a", "sub", "sub/b", "sub/a", "sub/deep/c"]  # note: document "
 
 def anchor_written(doc):
     """The heading anchor as a link writes it (the slug keeps '_'); the section id docutils assigns differs ('_' -> '-')."""
-    return "sub_heading-" + doc.replace("/", "-") + "-\u00fc"  # non-ASCII: percent-encoded by markdown-it in the link destination
+    return "sub_heading-" + doc.replace("/", "-") + "-\u00fc\u00df"  # non-ASCII (percent-encoded by markdown-it in the link); lower() keeps the sharp s, casefold() would not
 
 
 def anchor_id(doc):
@@ -153,12 +153,14 @@ def write_project(d, spec):
     open(os.path.join(d, "assets", "data.txt"), "w").write("data\n")
     open(os.path.join(d, "conf.py"), "w").write("extensions = ['myst_parser']\nmyst_heading_anchors = 2\nexclude_patterns = ['_build']\nsuppress_warnings = ['toc.not_included', 'toc.not_readable']\n"
                                               # entries that are only PREFIXES of the unresolvable destinations used below: they must silence nothing
-                                              "nitpick_ignore_regex = [('myst', 'lbl-no'), ('myst', r'\\.\\./nosuch'), ('myst', 'nosuch'), ('myst', '.*no-such')]\n")
+                                              "nitpick_ignore_regex = [('myst', 'lbl-no'), ('myst', r'\\.\\./nosuch'), ('myst', 'nosuch'), ('myst', '.*no-such')]\n"
+                                              # for two of the source documents the reference domains exclude 'std': labels and extension-less documents still resolve
+                                              + ("myst_ref_domains = ['py']\n" if spec["src"] in ("a", "sub/b") else ""))
     for doc in DOCS:
         p = os.path.join(d, doc + ".md")
         os.makedirs(os.path.dirname(p), exist_ok=True)
         tag = doc.replace("/", "-")
-        lines = ["(Lbl-%s)=" % tag, "# %s" % spec["titles"][doc], "", "para", "", "## Sub_heading %s \u00fc" % tag, "", "text", "", "## Notes", "", "n1", "", "## Notes", "", "n2", "", "## Notes", "", "n3", ""]
+        lines = ["(Lbl-%s)=" % tag, "# %s" % spec["titles"][doc], "", "para", "", "## Sub_heading %s \u00fc\u00df" % tag, "", "text", "", "## Notes", "", "n1", "", "## Notes", "", "n2", "", "## Notes", "", "n3", ""]
         if doc == spec["src"]:
             lines += ["LINK " + spec["md"], ""]
         if doc == "index":
@@ -181,6 +183,7 @@ def build_and_resolve(spec, real=False):
             build_warnings = warn.getvalue()  # resolving the doctree again below would report unresolved links a second time
             tree = app.env.get_and_resolve_doctree(spec["src"], app.builder)
             dst_tree = app.env.get_doctree(spec["dst"]) if spec["dst"] in app.env.all_docs else None
+            spec["sub_ids"] = [sec["ids"][0] for sec in dst_tree.findall(nodes.section) if sec[0].astext().startswith("Sub_heading")] if dst_tree is not None else []
             spec["notes_ids"] = [sec["ids"][0] for sec in dst_tree.findall(nodes.section) if sec[0].astext() == "Notes"] if dst_tree is not None else []
         out = []
         for p in tree.findall(nodes.paragraph):
@@ -224,12 +227,14 @@ def check(refs, warn, spec):
             want_id = spec["notes_ids"][2] if len(spec.get("notes_ids", [])) == 3 else None
             if want_id is None or (frag != want_id and r["refid"] != want_id):
                 return ("wrong-anchor", "link %r -> %r (refid %r), expected the id of the third 'Notes' section %r" % (spec["md"], got, r["refid"], want_id))
-        elif spec["anchor"] is not None and frag != spec["anchor"] and r["refid"] != spec["anchor"]:
+        elif spec["anchor"] is not None and spec.get("sub_ids") and frag != spec["sub_ids"][0] and r["refid"] != spec["sub_ids"][0]:
+            return ("wrong-anchor", "link %r -> %r (refid %r), expected the id of the sub heading %r" % (spec["md"], got, r["refid"], spec["sub_ids"][0]))
+        elif spec["anchor"] is not None and not spec.get("sub_ids") and frag != spec["anchor"] and r["refid"] != spec["anchor"]:
             return ("wrong-anchor", "link %r -> %r (refid %r), expected fragment %r" % (spec["md"], got, r["refid"], spec["anchor"]))
         if kind == "label" and frag != "lbl-" + spec["dst"].replace("/", "-"):
             return ("wrong-anchor", "label link %r -> %r" % (spec["md"], got))
         if not spec["explicit"]:
-            want = title if spec["anchor"] is None else "Notes" if spec["anchor"] == "<third Notes heading>" else "Sub_heading " + spec["dst"].replace("/", "-") + " \u00fc"
+            want = title if spec["anchor"] is None else "Notes" if spec["anchor"] == "<third Notes heading>" else "Sub_heading " + spec["dst"].replace("/", "-") + " \u00fc\u00df"
             if r["text"] != want:
                 return ("implicit-text", "link %r shows %r, expected the target title %r" % (spec["md"], r["text"], want))
         if nmiss:
